@@ -283,6 +283,10 @@ class MinFlowDecompCycles(walkmodel.AbstractWalkModelDiGraph):
         # this is a valid lower bound only if no edge carrying flow is ignored
         if any(self.flow_attr in self.G.edges[e] for e in self.edges_to_ignore if e in self.G.edges):
             return None
+        # The source flow (excess of out-flow over in-flow) can be derived only if every edge carries a flow value
+        # (in the node-expanded graph the edges between expanded nodes do not)
+        if any(self.flow_attr not in data for _, _, data in self.G.edges(data=True)):
+            return None
 
         min_gen_set_start_time = time.perf_counter()
         all_weights = list(set({self.G.edges[e][self.flow_attr] for e in self.G.edges() if self.flow_attr in self.G.edges[e]}))
